@@ -146,9 +146,11 @@ AugOps == {"+=", "*=", "-=", "|="}
 AugTargets == {"v", "x", "a"}
 AugExprsX == {"1", "x", "'a'", "[x]", "(x,)", "1.5", "v", "x[0]", "[None]", "2"}
 AugExprsY == {"y", "[y]", "(y,)", "(x, y)"}
-MutLinesX == {"m.append(x)", "m.append(1)", "m.extend(x)", "m.append(None)", "m.insert(0, x)", "m += [x]", "m.extend([x, 1])",
+MutLinesX == {"m.append(x)", "m.append(1)", "m.extend(x)", "m.append(None)", "m += [x]", "m.extend([x, 1])",
               "d['k'] = x", "d['j'] = 1", "d.setdefault('k', x)", "d.update({'z': x})", "d.pop('k', None)", "d['k'] = [x]",
-              "m[0] = x", "d.update(k=x)", "m.clear()", "del d['k']", "m.sort()", "m.pop()"}
+              "d.update(k=x)", "del d['k']", "m.append((x, 1))", "m.append([x])", "d['k'] = None",
+              \* mutators without an impl function (class unmodelled-container-mutator)
+              "m.insert(0, x)", "m[0] = x", "m.clear()"}
 MutLinesY == {"m.append(y)", "d['j'] = y", "d.setdefault('j', y)", "m.extend([x, y])", "d.update({'k': x, 'j': y})", "m += [y]"}
 ForTargets == {"e", "a, b", "a, *rest", "(a, b), c", "e, a"}
 ForItersX == {"x", "(x, 1)", "(1, 'a')", "v", "x[0:1]", "[x]", "range(2)", "tolist(x)", "enumerate(x)", "x.items()", "x.values()",
@@ -307,8 +309,11 @@ EqSafe(o) == /\ o # FLT1 /\ o.c # "bool"
              /\ \A i \in 1..Len(o.items) : IF o.c = "dict" THEN EqSafe(o.items[i].key) /\ EqSafe(o.items[i].val) ELSE EqSafe(o.items[i])
 ArgsFor(T) == SetToSeq({o \in ArgObjs : Member(o, T) /\ (EqSafe(o) \/ (o.c = "bool" /\ T = Typed("bool")))})
 
+\* (a constant: TLC evaluates it once)
+ArgsTable == [T \in ParamTypes |-> ArgsFor(T)]
+
 \* the declared types are inhabited (otherwise no execution would be observed)
-Inhabited == done = "done" => (ArgsFor(tx) # << >> /\ ArgsFor(ty) # << >>)
+Inhabited == \A T \in ParamTypes : ArgsTable[T] # << >>
 
 (***************************************************************************)
 (* Acceptance of a recorded execution                                      *)
@@ -361,6 +366,14 @@ HasManyT(T) ==
       [] T.k = "generic" -> \E i \in 1..Len(T.args) : HasManyT(T.args[i])
       [] T.k = "union" -> \E i \in 1..Len(T.ms) : HasManyT(T.ms[i])
       [] OTHER -> FALSE
+
+RECURSIVE HasShapedTuple(_)
+HasShapedTuple(T) ==
+    CASE T.k = "seq" -> T.c = "tuple" \/ \E i \in 1..Len(T.ms) : HasShapedTuple(T.ms[i].t)
+      [] T.k = "generic" -> \E i \in 1..Len(T.args) : HasShapedTuple(T.args[i])
+      [] T.k = "union" -> \E i \in 1..Len(T.ms) : HasShapedTuple(T.ms[i])
+      [] OTHER -> FALSE
+KeyBreakSupp == "loop-jump-in-suppressing-with"
 
 \* ---- (e) in-place mutators of list / dict / set that have no impl function: the inferred type of the container stays
 \* what it was (the impl table of implementation.py models append / extend / += / add / dict setitem / setdefault /
